@@ -222,20 +222,47 @@ def alias_of_self_attr(flow, expr, at, attr):
     return True
 
 
-def ctor_arg(repo, cls, call, attr):
-    """the argument of `call` (a construction of class `cls`) that cls.__init__ stores as self.<attr>; None if the call
-    does not pass it; AnalysisError if __init__ does not store a parameter there."""
+def _init_param_for(repo, cls, attr, depth=0):
+    """(init FuncInfo, name of the parameter of cls.__init__ that ends up in self.<attr>): assigned there directly or
+    handed to a base-class initialiser (`Base.__init__(self, ...)` / `super().__init__(...)`) that stores it."""
     found = repo.lookup(cls, '__init__')
     if not found or not isinstance(found[1], FuncInfo):
         raise AnalysisError('%s has no __init__ to bind constructor arguments with' % cls.qualname)
-    init = found[1]
-    param = None
+    owner, init = found
     for n in walk_function(init.node):
         if isinstance(n, ast.Assign) and any(is_self_attr(t, init, attr) for t in n.targets) and isinstance(n.value, ast.Name) \
                 and n.value.id in init.params:
-            param = n.value.id
-    if param is None:
-        raise AnalysisError('%s.__init__ does not store a parameter as .%s' % (cls.qualname, attr))
+            return init, n.value.id
+    if depth < 4:
+        for c in A.func_calls(init.node):
+            if not (isinstance(c.func, ast.Attribute) and c.func.attr == '__init__'):
+                continue
+            recv, args, base = c.func.value, list(c.args), None
+            if isinstance(recv, ast.Call) and isinstance(recv.func, ast.Name) and recv.func.id == 'super':
+                nxt = repo.lookup_after(cls, owner, '__init__')
+                base = nxt[0] if nxt else None
+            else:
+                r = repo.resolve_expr(init.module, recv)
+                if r is not None and r.kind == 'class' and isinstance(r.obj, ClassInfo) and args and isinstance(args[0], ast.Name) \
+                        and args[0].id == self_name(init):
+                    base, args = r.obj, args[1:]
+            if base is None or any(isinstance(a, ast.Starred) for a in args) or any(k.arg is None for k in c.keywords):
+                continue
+            try:
+                binit, bparam = _init_param_for(repo, base, attr, depth + 1)
+            except AnalysisError:
+                continue
+            i = binit.params.index(bparam) - 1
+            arg = args[i] if 0 <= i < len(args) else next((k.value for k in c.keywords if k.arg == bparam), None)
+            if isinstance(arg, ast.Name) and arg.id in init.params:
+                return init, arg.id
+    raise AnalysisError('%s.__init__ does not store a parameter as .%s' % (cls.qualname, attr))
+
+
+def ctor_arg(repo, cls, call, attr):
+    """the argument of `call` (a construction of class `cls`) that cls.__init__ stores as self.<attr>; None if the call
+    does not pass it; AnalysisError if __init__ does not store a parameter there."""
+    init, param = _init_param_for(repo, cls, attr)
     i = init.params.index(param) - 1
     if any(isinstance(a, ast.Starred) for a in call.args) or any(k.arg is None for k in call.keywords):
         raise AnalysisError('construction of %s with * / ** arguments (line %d)' % (cls.name, call.lineno))
